@@ -138,6 +138,8 @@ func (r *Rec) String() string {
 type RecLog struct {
 	raft.Log
 	rec *Rec
+	// Gate, when set, is called before an append reaches the real log (a slow disk, see the overlap probes)
+	Gate func()
 }
 
 func (l *RecLog) AppendEntry(e *raft.LogEntry) error {
@@ -150,6 +152,9 @@ func (l *RecLog) AppendEntries(es []*raft.LogEntry) error {
 		ents[i] = EntFromRaft(e)
 	}
 	l.rec.add("la(" + EntsString(ents) + ")")
+	if g := l.Gate; g != nil {
+		g()
+	}
 	return l.Log.AppendEntries(es)
 }
 func (l *RecLog) Truncate(i uint64) error {
@@ -169,10 +174,16 @@ func (l *RecLog) DiscardEntries(i, t uint64) error {
 type RecState struct {
 	raft.StateStorage
 	rec *Rec
+	// Gate, when set, is called before the write reaches the real storage (a slow disk: the overlap probe of
+	// E3-requestVote holds one write back and looks at what other handlers do meanwhile)
+	Gate func(term uint64, vote string)
 }
 
 func (s *RecState) SetState(term uint64, vote string) error {
 	s.rec.add(fmt.Sprintf("ss(%d,%d)", term, IDNum(vote)))
+	if g := s.Gate; g != nil {
+		g(term, vote)
+	}
 	return s.StateStorage.SetState(term, vote)
 }
 
@@ -296,6 +307,9 @@ type TNode struct {
 	Dir     string
 	Rec     *Rec
 	RawLog  raft.Log
+	RawState raft.StateStorage
+	St      *RecState
+	Lg      *RecLog
 	FSM     *NullFSM
 	Tr      raft.Transport
 	ID      uint64
@@ -325,7 +339,7 @@ func NewTNode(o NodeOpts) (*TNode, error) {
 	if err != nil {
 		return nil, err
 	}
-	tn := &TNode{Dir: o.Dir, Rec: rec, RawLog: rawLog, ID: o.ID, ET: o.ET, LD: o.LD}
+	tn := &TNode{Dir: o.Dir, Rec: rec, RawLog: rawLog, ID: o.ID, ET: o.ET, LD: o.LD, RawState: st, St: &RecState{StateStorage: st, rec: rec}, Lg: &RecLog{Log: rawLog, rec: rec}}
 	tr := o.Transport
 	if tr == nil {
 		tr = &NullTransport{addr: Addr(o.ID)}
@@ -337,8 +351,8 @@ func NewTNode(o NodeOpts) (*TNode, error) {
 		fsm = tn.FSM
 	}
 	opts := []raft.Option{
-		raft.WithTransport(tr), raft.WithLog(&RecLog{Log: rawLog, rec: rec}),
-		raft.WithStateStorage(&RecState{StateStorage: st, rec: rec}),
+		raft.WithTransport(tr), raft.WithLog(tn.Lg),
+		raft.WithStateStorage(tn.St),
 		raft.WithSnapshotStorage(&RecSnap{SnapshotStorage: sn, rec: rec}),
 		raft.WithLogLevel(logging.Fatal),
 	}
